@@ -283,12 +283,25 @@ class Reader:
             raise IOError("Reader not open; call `open` before `read`")
         if hasattr(self, 'raw_channel_order'):
             csel = self.raw_channel_order[csel]
-        darray = self._raw[nsel, :].astype(np.float32, copy=True)[..., csel]
+        darray = self._read_raw(nsel).astype(np.float32, copy=True)[..., csel]
         darray *= self.channel_conversion_sample2v[self.type][csel]
         if sync:
             return darray, self.read_sync(nsel)
         else:
             return darray
+
+    def _read_raw(self, nsel):
+        """
+        Selects samples of the raw array: self._raw[nsel, :]
+        mtscomp reads slices forward only and returns nothing for a negative step: in this case
+        the same samples are read forward and flipped
+        """
+        if self.is_mtscomp and isinstance(nsel, slice) and nsel.step is not None and nsel.step < 0:
+            ind = range(*nsel.indices(self._raw.shape[0]))  # the requested samples, decreasing
+            if len(ind) == 0:
+                return self._raw[0:0, :]
+            return self._raw[ind[-1]:ind[0] + 1:-nsel.step, :][::-1]
+        return self._raw[nsel, :]
 
     def read_samples(self, first_sample=0, last_sample=10000, channels=None):
         """
@@ -315,7 +328,7 @@ class Reader:
         if not self.meta:
             _logger.warning("Sync trace not labeled in metadata. Assuming last trace")
         return split_sync(
-            self._raw[_slice, _get_sync_trace_indices_from_meta(self.meta)]
+            self._read_raw(_slice)[..., _get_sync_trace_indices_from_meta(self.meta)]
         )
 
     def read_sync_analog(self, _slice=slice(0, 10000)):
